@@ -21,7 +21,7 @@ use mithril_stm::{
 use serde::Serialize;
 use serde::de::DeserializeOwned;
 
-use crate::honest::{Agg, Avk, BCommit, BPath, MapProof, SigReg, Sum6KesSig, Tree};
+use crate::honest::{Agg, Avk, BCommit, BPath, EdSignature, EdVerificationKey, MapProof, SigReg, Sum6KesSig, Tree};
 
 /// what the entry takes
 #[derive(Clone, Copy, PartialEq, Debug)]
@@ -159,6 +159,8 @@ pub fn entries() -> Vec<Entry> {
     reg_bin::<MapProof>(&mut v, "MKMapProof");
     reg_key::<Sum6KesSig>(&mut v, "Sum6KesSig");
     reg_key::<OpCert>(&mut v, "OpCert");
+    reg_key::<EdSignature>(&mut v, "Ed25519Signature");
+    reg_key::<EdVerificationKey>(&mut v, "Ed25519VerificationKey");
     push(&mut v, "SignedEntityType", "SignedEntityType::try_from_bytes".into(), Form::Raw, true, false,
         Box::new(|i, h| SignedEntityType::try_from_bytes(i).map(|x| judge(&x, h)).map_err(es)));
     push(&mut v, "SignedEntityType", "SignedEntityType::try_from_bytes_hex".into(), Form::Str, true, false,
@@ -185,6 +187,16 @@ pub fn entries() -> Vec<Entry> {
             let m: CertificateMessage = serde_json::from_slice(i).map_err(es)?;
             let c = Certificate::try_from(m).map_err(es)?;
             Ok(judge::<Avk>(&c.aggregate_verification_key, h))
+        }));
+    push(&mut v, "Ed25519Signature", "CertificateMessage->Certificate[genesis_signature]".into(),
+        Form::Msg("cert.genesis_signature"), true, true,
+        Box::new(|i, h| {
+            let m: CertificateMessage = serde_json::from_slice(i).map_err(es)?;
+            let c = Certificate::try_from(m).map_err(es)?;
+            match &c.signature {
+                CertificateSignature::GenesisSignature(g) => Ok(judge::<EdSignature>(g, h)),
+                _ => Ok(h.map(|_| false)),
+            }
         }));
     push(&mut v, "SingleSignature", "RegisterSignatureMessageHttp->signature".into(),
         Form::Msg("regsig.signature"), true, true,
